@@ -122,6 +122,10 @@ def run(ctx):
                     ctx.violation(f"silixa:{tname}:x-wrong", "x is not the recorded distance column", rec)
                 if o.get("probe1") != [1000.0 + f for f in range(nn)]:
                     ctx.violation(f"silixa:{tname}:probe-series-misaligned", f"probe1Temperature {o.get('probe1')}", rec)
+                want_acq = {"userAcquisitionTimeFW": [10.0] * nn, **({"userAcquisitionTimeBW": [12.0] * nn} if dbl else {})}
+                for kq, wq in want_acq.items():
+                    if o.get(kq) != wq:
+                        ctx.violation(f"silixa:{tname}:{kq}-wrong", f"{kq} = {o.get(kq)}; the channel configuration in the files says {wq[0]}", rec)
             # ---- AP Sensing .xml (LAF, TEMP, ST, AST): placement, order under a reversed creation order of the files, inconsistent lengths
             nn, nxx = int(rng.integers(1, 7)), int(rng.integers(3, 41))
             d = os.path.join(tmp, f"apsensing{c}")
